@@ -243,12 +243,18 @@ let oracle_c14_case script trace =
         | Some pre, Some post ->
           (* every runtime-modified attribute (= key of original_attributes) has the same value after the reload *)
           let keys = match pre.ps_m_orig with Some d -> List.map fst d | None -> [] in
-          let same = ok && List.for_all (fun k -> ps_veqb (ps_get_attr k pre) (ps_get_attr k post) && ps_orig_mentions k post) keys in
+          let post_keys = match post.ps_m_orig with Some d -> List.map fst d | None -> [] in
+          (* C14_history_reload: the reloaded object lists exactly the keys that were listed at the dump (a stale or
+             missing file shows here), and every listed attribute reads as before *)
+          let same = ok && List.for_all (fun k -> ps_veqb (ps_get_attr k pre) (ps_get_attr k post) && ps_orig_mentions k post) keys
+                     && List.for_all (fun k -> List.mem k keys) post_keys in
           if not same then begin
             let bad = List.filter (fun k -> not (ps_veqb (ps_get_attr k pre) (ps_get_attr k post) && ps_orig_mentions k post)) keys in
             match bad with
             | k :: _ when ok -> fail (Printf.sprintf "modattr-mismatch ok=1 key=%s before=%s after=%s mentioned=%d" (ps_key_hex k)
                                        (ps_canon (ps_get_attr k pre)) (ps_canon (ps_get_attr k post)) (if ps_orig_mentions k post then 1 else 0))
+            | [] when ok -> fail (Printf.sprintf "modattr-mismatch ok=1 extra-keys listed-after=%s listed-before=%s"
+                                    (String.concat "," (List.map ps_key_hex post_keys)) (String.concat "," (List.map ps_key_hex keys)))
             | _ -> fail "modattr-mismatch ok=0 reload-failed"
           end;
           cur := o; open_mods := []
